@@ -92,7 +92,7 @@ func hookBadger(repo, out string, replace map[string]string) ([]string, error) {
 	}
 	// before a real commit
 	if err := sub("\tdefer txn.Discard()\n\n\ttxnCb, err := txn.commitAndSend()\n\tif err != nil {\n\t\treturn err\n\t}\n",
-		"\tdefer txn.Discard()\n\n\tif VerifHook != nil {\n\t\tVerifHook(VerifBeforeCommit)\n\t}\n\ttxnCb, err := txn.commitAndSend()\n\tif err != nil {\n\t\treturn err\n\t}\n"); err != nil {
+		"\tdefer txn.Discard()\n\n\tif VerifCommitFault != nil {\n\t\tif ferr := VerifCommitFault(); ferr != nil {\n\t\t\treturn ferr\n\t\t}\n\t}\n\tif VerifHook != nil {\n\t\tVerifHook(VerifBeforeCommit)\n\t}\n\ttxnCb, err := txn.commitAndSend()\n\tif err != nil {\n\t\treturn err\n\t}\n"); err != nil {
 		return nil, err
 	}
 	// after the commit returned
@@ -129,6 +129,10 @@ var VerifHook func(ev int)
 // VerifAsyncHold is asked by CommitWith (asynchronous commit) whether this commit is to be treated as not
 // having reached the write-ahead log before the process dies; if it answers true nothing is sent.
 var VerifAsyncHold func() bool
+
+// VerifCommitFault is asked before a non-empty transaction commits; a non-nil answer is returned to the caller
+// instead of committing (an injected storage write error).
+var VerifCommitFault func() error
 `
 	dst := filepath.Join(out, "gen", "badger", "txn.go")
 	if err := os.MkdirAll(filepath.Dir(dst), 0o755); err != nil {
